@@ -6,6 +6,7 @@ using namespace nano;
 tensor_size_t bin_f64(const histogram_t& h, double v) { return h.bin(v); }
 tensor_size_t bin_i64(const histogram_t& h, tensor_size_t v) { return h.bin(v); }
 histogram_t   make_thr(double* b, double* e, tensor_mem_t<scalar_t, 1> t) { return histogram_t::make_from_thresholds(b, e, t); }
+histogram_t   make_thr_i64(tensor_size_t* b, tensor_size_t* e, tensor_mem_t<scalar_t, 1> t) { return histogram_t::make_from_thresholds(b, e, t); }
 histogram_t   make_pct(double* b, double* e, tensor_mem_t<scalar_t, 1> t) { return histogram_t::make_from_percentiles(b, e, t); }
 histogram_t   make_rat(double* b, double* e, tensor_mem_t<scalar_t, 1> t) { return histogram_t::make_from_ratios(b, e, t); }
 double        pct_sorted(const double* b, const double* e, double p) { return percentile_sorted(b, e, p); }
